@@ -42,9 +42,9 @@ func guardedBy(c *Ctx, rule string, named *types.Named, guarded map[string]bool,
 		}
 		h, ok := held[a.Fn]
 		if !ok {
-			var entry LockSet
+			entry := EntryLockset(a.Fn)
 			if entryHeld[a.Fn.String()] {
-				entry = LockSet{Desc(a.Base) + "." + mutexField: 1}
+				entry[Desc(a.Base)+"."+mutexField] = 1
 			}
 			h = MustHeld(a.Fn, entry)
 			held[a.Fn] = h
@@ -127,7 +127,7 @@ func c12Rules(c *Ctx, r1, r2, r3, r4, r5 string) {
 		p := writeParam(write)
 		var bw []*ssa.Call
 		var flush *ssa.Call
-		for _, cl := range Calls(write) {
+		for _, cl := range CallsDeep(write) {
 			if IsCallTo(cl, "(*bufio.Writer).Write") {
 				bw = append(bw, cl.(*ssa.Call))
 			}
@@ -135,54 +135,78 @@ func c12Rules(c *Ctx, r1, r2, r3, r4, r5 string) {
 				flush, _ = cl.(*ssa.Call)
 			}
 		}
-		c.Check(len(bw) == 1 && bw[0].Call.Args[1] == ssa.Value(p), r2, name, "single-whole-write", write.Pos(), "exactly one bufio write, of the original parameter (a re-sliced or split payload would tear a line)")
+		origParam := false
+		if len(bw) == 1 {
+			Bound(func() { origParam = Desc(bw[0].Call.Args[1]) == p.Name() })
+			origParam = origParam || bw[0].Call.Args[1] == ssa.Value(p)
+		}
+		c.Check(len(bw) == 1 && origParam, r2, name, "single-whole-write", write.Pos(), "exactly one bufio write, of the original parameter (a re-sliced or split payload would tear a line)")
 		if flush == nil || len(bw) != 1 {
 			c.Bad(r2, name, "flush-before-write", write.Pos(), "no Flush call before the buffered write")
 		} else {
 			var atoms []string
-			for _, a := range AtomStrings(Guards(flush)) {
-				if strings.Contains(a, "initialized") {
-					continue
+			Bound(func() {
+				for _, a := range AtomStrings(Guards(flush)) {
+					if strings.Contains(a, "initialized") {
+						continue
+					}
+					atoms = append(atoms, a)
 				}
-				atoms = append(atoms, a)
-			}
+			})
 			sort.Strings(atoms)
-			want := []string{"Buffered(s.writer) > 0", "len(bs) > Available(s.writer)"}
+			recv := write.Params[0].Name()
+			want := []string{"Buffered(" + recv + ".writer) > 0", "len(" + p.Name() + ") > Available(" + recv + ".writer)"}
 			c.Check(strings.Join(atoms, "|") == strings.Join(want, "|"), r2, name, "flush-condition", flush.Pos(), "the buffer is flushed first exactly when the write does not fit and something is buffered (guards %v, want %v); any further conjunct lets bufio split an oversized write across two sink writes", atoms, want)
-			c.Check(Dominates(flush, bw[0]) == false && !ExistsPath(write, bw[0], func(i ssa.Instruction) bool { return i == ssa.Instruction(flush) }, nil), r2, name, "flush-precedes", flush.Pos(), "the flush is conditional and never follows the write")
+			c.Check(!ExistsPath(write, bw[0], func(i ssa.Instruction) bool { return i == ssa.Instruction(flush) }, nil), r2, name, "flush-precedes", flush.Pos(), "the flush never follows the write")
 			okErr := false
 			for _, r := range Returns(write) {
 				rv := RetVals(r)
-				if Strip(rv[1]) == ssa.Value(flush) {
+				if mayCarry(Strip(rv[1]), flush, 0) {
 					v, isC := ConstInt(rv[0])
-					okErr = isC && v == 0 && HasAtom(Guards(r), func(s string) bool { return s == Desc(flush)+" != nil" })
+					okErr = isC && v == 0 && HasAtom(Guards(r), func(s string) bool { return s == Desc(Strip(rv[1]))+" != nil" }) && !Dominates(bw[0], r)
 				}
 			}
 			c.Check(okErr, r2, name, "flush-error-returns-zero", flush.Pos(), "a flush error returns (0, err) before anything of the new payload is buffered")
 		}
 	}
 	if r3 != "" {
-		var ws, flush ssa.Instruction
-		for _, cl := range Calls(sync) {
-			if IsCallTo(cl, "(go.uber.org/zap/zapcore.WriteSyncer).Sync") && Desc(Args(cl)[0]) == "s.WS" {
-				ws = cl
-			}
-			if IsCallTo(cl, "(*bufio.Writer).Flush") {
-				flush = cl
-			}
+		isWS := func(i ssa.Instruction) bool {
+			cl, ok := i.(ssa.CallInstruction)
+			return ok && IsCallTo(cl, "(go.uber.org/zap/zapcore.WriteSyncer).Sync") && strings.HasSuffix(Desc(Args(cl)[0]), ".WS")
 		}
-		c.Check(ws != nil && mustPass(sync, func(i ssa.Instruction) bool { return i == ws }), r3, sync.String(), "always-syncs-sink", sync.Pos(), "every path of Sync reaches s.WS.Sync()")
-		okF := flush != nil && ws != nil && !ExistsPath(sync, ws, func(i ssa.Instruction) bool { return i == flush }, nil)
-		if okF {
-			_, t, _ := BranchOn(sync, "s.initialized")
-			okF = t != nil && !ExistsPath(sync, AtBlock(t), func(i ssa.Instruction) bool { return i == ws }, func(i ssa.Instruction) bool { return i == flush })
+		isFlush := func(i ssa.Instruction) bool {
+			cl, ok := i.(ssa.CallInstruction)
+			return ok && IsCallTo(cl, "(*bufio.Writer).Flush")
+		}
+		c.Check(mustPass(sync, isWS), r3, sync.String(), "always-syncs-sink", sync.Pos(), "every path of Sync reaches s.WS.Sync()")
+		// when initialised: flush happens, and before the sink sync
+		_, t, _ := BranchOn(sync, sync.Params[0].Name()+".initialized")
+		okF := t != nil && !ExistsPath(sync, AtBlock(t), isWS, isFlush)
+		// never a flush after the sink sync
+		for _, cl := range CallsDeep(sync) {
+			if isWS(cl) && ExistsPath(sync, cl, isFlush, nil) {
+				okF = false
+			}
 		}
 		c.Check(okF, r3, sync.String(), "flush-before-sync", sync.Pos(), "when initialised the buffer is flushed before the sink is synced")
-		// both errors combined
-		okE := false
+		// both errors reported: every return yields the sink's Sync error, combined with the flush error where a flush happened
+		okE := true
 		for _, r := range Returns(sync) {
-			if call, ok := Strip(RetVals(r)[0]).(*ssa.Call); ok && IsCallTo(call, "go.uber.org/multierr.Append") {
-				okE = Strip(call.Call.Args[1]) == ws.(ssa.Value)
+			v := Strip(RetVals(r)[0])
+			call, isCall := v.(*ssa.Call)
+			switch {
+			case isCall && IsCallTo(call, "go.uber.org/multierr.Append"):
+				a1, ok1 := Strip(call.Call.Args[1]).(*ssa.Call)
+				if !ok1 || !isWS(a1) {
+					okE = false
+				}
+			case isCall && isWS(call):
+				// plain relay: only where no flush can have happened
+				if ExistsPath(sync, nil, func(i ssa.Instruction) bool { return i == ssa.Instruction(r) }, nil) && !ExistsPath(sync, nil, func(i ssa.Instruction) bool { return i == ssa.Instruction(r) }, isFlush) {
+					okE = false
+				}
+			default:
+				okE = false
 			}
 		}
 		c.Check(okE, r3, sync.String(), "errors-combined", sync.Pos(), "flush and sync errors are both reported")
@@ -194,7 +218,7 @@ func c12Rules(c *Ctx, r1, r2, r3, r4, r5 string) {
 		var owner *ssa.Function
 		var recvDone ssa.Instruction
 		var finalSync ssa.Instruction
-		for _, f := range WithClosures(stop) {
+		for _, f := range Region(stop) {
 			AllInstrs(f, func(i ssa.Instruction) {
 				switch x := i.(type) {
 				case *ssa.Store:
@@ -221,7 +245,7 @@ func c12Rules(c *Ctx, r1, r2, r3, r4, r5 string) {
 		if storeStopped == nil || closeStop == nil || recvDone == nil {
 			c.Bad(r4, name, "shape", stop.Pos(), "expected a store to stopped, close(stop) and <-done (found %v %v %v)", storeStopped != nil, closeStop != nil, recvDone != nil)
 		} else {
-			held := MustHeld(owner, nil)
+			held := MustHeldCtx(owner)
 			m := ""
 			for k := range held[storeStopped] {
 				m = k
@@ -258,7 +282,7 @@ func c12Rules(c *Ctx, r1, r2, r3, r4, r5 string) {
 			sameSection := closeStop.Parent() == owner && Dominates(storeStopped, closeStop) && held[closeStop][m] == 1
 			c.Check(sameSection && tickerStop != nil && tickerStop.Parent() == owner && Dominates(storeStopped, tickerStop), r4, name, "close-once-on-setting-path", closeStop.Pos(),
 				"close(stop) and ticker.Stop() run only after this call set the flag, still under the lock (a second close would panic)")
-			hr := MustHeld(recvDone.Parent(), nil)
+			hr := MustHeldCtx(recvDone.Parent())
 			c.Check(len(hr[recvDone]) == 0, r4, name, "waits-unlocked", recvDone.Pos(), "<-done is executed with no mutex held (lockset %s); holding it would deadlock against the flush loop's Sync (issue 1428)", hr[recvDone])
 			c.Check(finalSync != nil && finalSync.Parent() == recvDone.Parent() && Dominates(recvDone, finalSync), r4, name, "final-sync", recvDone.Pos(), "a final Sync follows the wait")
 			// non-blocking on the other paths: returns not dominated by recvDone are reached without channel ops
@@ -342,4 +366,35 @@ func firstWithSuffix(atoms []string, suf string) string {
 		}
 	}
 	return ""
+}
+
+// mayCarry: can value e be the result of call src, directly or as the value an eligible helper returns on some path?
+func mayCarry(e ssa.Value, src *ssa.Call, depth int) bool {
+	if e == ssa.Value(src) {
+		return true
+	}
+	if depth > 3 {
+		return false
+	}
+	switch x := e.(type) {
+	case *ssa.Phi:
+		for _, ed := range x.Edges {
+			if mayCarry(Strip(ed), src, depth+1) {
+				return true
+			}
+		}
+	case *ssa.Call:
+		if h := helperOf(x); h != nil {
+			for _, r := range Returns(h) {
+				for _, v := range RetVals(r) {
+					if mayCarry(Strip(v), src, depth+1) {
+						return true
+					}
+				}
+			}
+		}
+	case *ssa.Extract:
+		return mayCarry(x.Tuple, src, depth+1)
+	}
+	return false
 }
